@@ -327,6 +327,25 @@ class World(object):
             hdr = self._auth('nobody', self.cfg['password'])
         elif cred == 'badpass':
             hdr = self._auth(self.cfg['user'], 'wrong')
+        elif cred == 'baduser-empty':          # unknown user, empty password
+            hdr = self._auth('nobody', '')
+        elif cred == 'gooduser-empty':
+            hdr = self._auth(self.cfg['user'], '')
+        elif cred == 'emptyuser':
+            hdr = self._auth('', self.cfg['password'])
+        elif cred == 'empty-both':
+            hdr = self._auth('', '')
+        elif cred == 'swapped':
+            hdr = self._auth(self.cfg['password'] + 'x', self.cfg['user'])
+        elif cred == 'case':
+            hdr = self._auth(self.cfg['user'].upper(), self.cfg['password'].upper())
+        elif cred == 'bearer':
+            hdr = {'Authorization': 'Bearer ' + self.auth['Authorization'].split(' ', 1)[1]}
+        elif cred == 'garbage':
+            hdr = {'Authorization': 'Basic !!!not-base64!!!'}
+        elif cred == 'nocolon':
+            import base64
+            hdr = {'Authorization': 'Basic ' + base64.b64encode(self.cfg['user'].encode()).decode()}
         url = '/v1/peer/%s/%s' % (PEER, rule)
         kw = {}
         if body is not None:
